@@ -439,8 +439,12 @@ func c14CLI(c *Ctx, n int, thorough bool) error {
 					sets = append(sets, randomHistory(r))
 				}
 			}
-			for _, ts := range sets {
+			for si, ts := range sets {
 				dirs := layoutDirs(layout, ts)
+				if si%2 == 1 {
+					dirs[mixAbsKey] = "" // relative and absolute spellings mixed within one invocation
+					c.ev.Fire("argv_mixed_relative_and_absolute_dirs", 1)
+				}
 				w := &CLIWorld{Argv: compileArgvDirs(ts, dirs, long, sub, abs), Disk0: disk, Sched: s0()}
 				o, err := c.sc.RunCLI(w)
 				if err != nil {
@@ -460,7 +464,77 @@ func c14CLI(c *Ctx, n int, thorough bool) error {
 				}
 				for _, t := range ts {
 					if d := layoutDiff(alone, o, dirs, ts, t); len(d) > 0 {
-						c.candidate14CLI(i, prog, w, ts, t, layout, d)
+						lay := layout
+						if _, mix := dirs[mixAbsKey]; mix {
+							lay += "+mixed-abs"
+						}
+						c.candidate14CLI(i, prog, w, ts, t, lay, d)
+					}
+				}
+			}
+			// resource fault: a descriptor limit just above what the hungriest
+			// single target needs; a leak that accumulates from one target to
+			// the next runs into it only when several targets are requested
+			if layout == "shared-root" {
+				most := 0
+				for _, t := range AllTargets {
+					if n := len(alone[t].subtree(targetDir[t])); n > most {
+						most = n
+					}
+				}
+				limit := most + 9 // measured: the process itself needs about 6 descriptors beyond the files one target keeps open
+				okAlone := true
+				for _, t := range AllTargets {
+					oa, err := c.sc.RunCLI(&CLIWorld{Argv: compileArgv([]string{t}, long, sub, abs), Disk0: disk, Sched: s0(), NoFile: limit})
+					if err != nil {
+						return err
+					}
+					c.ev.Count("cli_worlds", 1)
+					if oa.TimedOut || oa.Exit != 0 {
+						okAlone = false // the limit is too tight for this tree even alone: no oracle
+					}
+				}
+				if okAlone {
+					w := &CLIWorld{Argv: compileArgv(AllTargets, long, sub, abs), Disk0: disk, Sched: s0(), NoFile: limit}
+					o, err := c.sc.RunCLI(w)
+					if err != nil {
+						return err
+					}
+					c.ev.AddRecord(&o.Rec)
+					c.ev.Count("cli_worlds", 1)
+					c.ev.Fire("fault_low_descriptor_limit", 1)
+					if !o.TimedOut {
+						for _, t := range AllTargets {
+							d := layoutDiff(alone, o, layoutDirs("", AllTargets), AllTargets, t)
+							if o.Exit != 0 && len(d) == 0 {
+								continue
+							}
+							if len(d) == 0 {
+								continue
+							}
+							c.mu.Lock()
+							c.candidates++
+							dup := c.sigSeen["coarse:C14cli-nofile"]
+							c.sigSeen["coarse:C14cli-nofile"] = true
+							c.mu.Unlock()
+							if dup {
+								break
+							}
+							// confirm: twice more
+							again := 0
+							for k := 0; k < 2; k++ {
+								if o2, err := c.sc.RunCLI(w); err == nil && !o2.TimedOut && len(layoutDiff(alone, o2, layoutDirs("", AllTargets), AllTargets, t)) > 0 {
+									again++
+								}
+							}
+							if again == 0 {
+								break
+							}
+							rf := &ReplayFile{Property: "C14", Kind: "cli-c14-nofile", RunSeed: c.Seed, Case: i, DSL: text, Target: t, History: AllTargets, CLI: w,
+								Expect: map[string]any{"descriptor_limit": limit, "every_target_alone_succeeds_under_the_same_limit": true}}
+							c.report("C14|cli|"+t+"|nofile", fmt.Sprintf("CLI: under a descriptor limit of %d every target alone is written completely, but requested together (exit %d) the tree of target %s is incomplete or different: %v", limit, o.Exit, t, clipList(d, 2)), d, rf)
+							break
+						}
 					}
 				}
 			}
